@@ -17,22 +17,18 @@ theorem parseValue_opt_of_ne (t : Ty) (v : PV) (p : Path) (h : v ≠ .none) :
   cases v <;> simp [parseValue] at h ⊢
 
 theorem parseValue_float_int (n : Int) (p : Path) :
-    parseValue .float (.int n) p = if floatOverflow n then .error .overflowError else .ok (.fltOfInt n) := by
+    parseValue .float (.int n) p = if floatOverflow n then mismatch p else .ok (.fltOfInt n) := by
   simp only [parseValue]
 
-theorem parseValue_tupleFix (ts : List Ty) (v : PV) (p : Path) :
-    parseValue (.tupleFix ts) v p =
-      match pyLen v with
-      | .none => .error .typeError
-      | some n =>
-        if n = ts.length then
-          match v with
-          | .list xs => okMap .tuple (parseTuple ts xs 0 p)
-          | .tuple xs => okMap .tuple (parseTuple ts xs 0 p)
-          | _ => mismatch p
-        else mismatch p := by
+theorem parseValue_tupleFix_list (ts : List Ty) (xs : List PV) (p : Path) :
+    parseValue (.tupleFix ts) (.list xs) p =
+      if xs.length = ts.length then okMap .tuple (parseTuple ts xs 0 p) else mismatch p := by
   simp only [parseValue]
-  rfl
+
+theorem parseValue_tupleFix_tuple (ts : List Ty) (xs : List PV) (p : Path) :
+    parseValue (.tupleFix ts) (.tuple xs) p =
+      if xs.length = ts.length then okMap .tuple (parseTuple ts xs 0 p) else mismatch p := by
+  simp only [parseValue]
 
 theorem parseValue_struct_dict (n : Str) (fs : List Field) (kvs : List (Str × PV)) (p : Path) :
     parseValue (.struct n fs) (.dict kvs) p = structResult n (fieldNames fs) kvs p (parseFields fs kvs p) := by
@@ -173,7 +169,7 @@ theorem admits_of_ok : ∀ (τ : Ty) (j : PV) (p : Path) (v : PV), parseValue τ
     | int n =>
       rw [parseValue_float_int] at h
       cases hf : floatOverflow n with
-      | true => simp [hf] at h
+      | true => simp [hf, mismatch] at h
       | false => simp [hf] at h; subst h; exact .floatInt _ hf
     | bool b => simp [parseValue] at h; subst h; exact .floatBool _
     | flt l => simp [parseValue] at h; subst h; exact .floatFlt _
@@ -194,23 +190,22 @@ theorem admits_of_ok : ∀ (τ : Ty) (j : PV) (p : Path) (v : PV), parseValue τ
     · obtain ⟨ys, h1, h2⟩ := h; subst h2
       exact .tupleVarT (mapIdx_ok_admitsL (fun i x y hx => admits_of_ok t x _ y hx) _ _ _ h1)
   | .tupleFix ts, j, p, v, h => by
-    rw [parseValue_tupleFix] at h
     cases j with
     | list xs =>
-      simp only [pyLen] at h
+      rw [parseValue_tupleFix_list] at h
       by_cases hl : xs.length = ts.length
       · simp only [hl, if_true, okMap_ok] at h
         obtain ⟨ys, h1, h2⟩ := h; subst h2
         exact .tupleFixL (admitsT_of_ok ts _ 0 p ys hl h1)
       · simp [hl, mismatch] at h
     | tuple xs =>
-      simp only [pyLen] at h
+      rw [parseValue_tupleFix_tuple] at h
       by_cases hl : xs.length = ts.length
       · simp only [hl, if_true, okMap_ok] at h
         obtain ⟨ys, h1, h2⟩ := h; subst h2
         exact .tupleFixT (admitsT_of_ok ts _ 0 p ys hl h1)
       · simp [hl, mismatch] at h
-    | _ => simp [pyLen, mismatch] at h
+    | _ => simp [parseValue, mismatch] at h
   | .dict t, j, p, v, h => by
     cases j <;> simp [parseValue, mismatch, okMap_ok] at h
     obtain ⟨ys, h1, h2⟩ := h; subst h2
@@ -317,13 +312,14 @@ theorem ok_of_admits : ∀ (τ : Ty) (j v : PV), Admits τ j v → ∀ p, parseV
       simp only [parseValue, okMap_ok]
       exact ⟨_, mapIdx_of_admitsL (fun x y hxy i => ok_of_admits t x y hxy _) _ _ 0 hl, rfl⟩
   | .tupleFix ts, j, v, h, p => by
-    rw [parseValue_tupleFix]
     cases h with
     | tupleFixL hl =>
-      simp only [pyLen, hl.length_eq.1, if_true, okMap_ok]
+      rw [parseValue_tupleFix_list]
+      simp only [hl.length_eq.1, if_true, okMap_ok]
       exact ⟨_, okT_of_admitsT ts _ _ hl 0 p, rfl⟩
     | tupleFixT hl =>
-      simp only [pyLen, hl.length_eq.1, if_true, okMap_ok]
+      rw [parseValue_tupleFix_tuple]
+      simp only [hl.length_eq.1, if_true, okMap_ok]
       exact ⟨_, okT_of_admitsT ts _ _ hl 0 p, rfl⟩
   | .dict t, j, v, h, p => by
     cases h with
